@@ -6,6 +6,7 @@ import (
 	"math/rand"
 	"net"
 	"sync"
+	"sync/atomic"
 	"time"
 
 	"github.com/Jigsaw-Code/outline-ss-server/service"
@@ -31,6 +32,7 @@ type probeCase struct {
 	FIN     bool   `json:"client_fin"`
 	Rig     string `json:"rig"`
 	Dribble bool   `json:"client_keeps_writing"`
+	SrcIP   string `json:"client_ip,omitempty"` // fixed client address (default: a random one per probe)
 }
 
 // minimum observed time from "before dialling" to the server's close, per rig and per
@@ -91,7 +93,11 @@ func c06BuildValid(r *rand.Rand, k KeySpec, hubPort int, caseN uint64, extra int
 func c06Unauth(c *vk.Ctx, r *rand.Rand, rg *c06Rig, hub *TargetHub, pc probeCase, input []byte) bool {
 	c.Progress("C06 unauth %+v", pc)
 	before := hub.Accepted.Load()
-	cl, err := DialSS(rg.rig.Addr4(), randSrc4(r), rg.keys[0], nil)
+	src := randSrc4(r)
+	if pc.SrcIP != "" {
+		src = net.ParseIP(pc.SrcIP).To4()
+	}
+	cl, err := DialSS(rg.rig.Addr4(), src, rg.keys[0], nil)
 	if err != nil {
 		c.Inconclusive("dial: " + err.Error())
 		return true
@@ -524,6 +530,41 @@ func c06Run(c *vk.Ctx) {
 		c.Violation("C06/target-contacted-for-unauthenticated-input", u[:min(len(u), 5)])
 		return
 	}
+	// History: a client address with hundreds of failed handshakes behind it (a scanner, a NAT
+	// full of misconfigured clients) is absorbed like any other.
+	for ri, rg := range []*c06Rig{rigs[0], rigs[2]} {
+		ip := net.IPv4(198, 51, 100, byte(60+ri)).To4()
+		nFail := c.N(300, 700)
+		var fw sync.WaitGroup
+		var failedN atomic.Int64
+		for w := 0; w < 16; w++ {
+			fw.Add(1)
+			fr := c.SubRng("c06hist", ri*16+w)
+			go func(w int) {
+				defer fw.Done()
+				for i := w; i < nFail; i += 16 {
+					cl, err := DialSS(rg.rig.Addr4(), ip, rg.keys[0], nil)
+					if err != nil {
+						continue
+					}
+					cl.WriteRaw(randBytes(fr, fr.Intn(130)))
+					cl.Conn.CloseWrite()
+					watchClose(cl, time.Now().Add(c06B))
+					cl.Conn.Close()
+					failedN.Add(1)
+				}
+			}(w)
+		}
+		fw.Wait()
+		c.Max("max_failed_handshakes_from_one_address_before_a_probe", failedN.Load())
+		for _, l := range []int{60, 0, 300} {
+			pc := probeCase{ID: nextID(c.Batch), Class: "after-many-failures-from-this-address", Cipher: rg.keys[0].Cipher, Len: l, Rig: rg.name, SrcIP: ip.String()}
+			if !c06Unauth(c, r, rg, hub, pc, randBytes(r, l)) {
+				return
+			}
+			c.Count("probes_after_many_failures_absorbed", 1)
+		}
+	}
 	// Probes that are being absorbed when their listener shuts down are still held until the deadline.
 	rg := rigs[1]
 	var pw sync.WaitGroup
@@ -569,6 +610,7 @@ func init() {
 			c.Require("replay_probes")
 			c.Require("probes_held_across_listener_shutdown")
 			c.Require("deadline_comparisons")
+			c.Require("probes_after_many_failures_absorbed")
 			c06Run(c)
 		},
 	})
